@@ -114,3 +114,82 @@ func minU(a uint32, b uint32) uint32 {
 	}
 	return b
 }
+
+// AttackCfgs: configurations every scripted attack is instantiated for (one adversary validator B).
+type AttackCfg struct {
+	Powers []int64
+	B      int
+}
+
+func AttackCfgs() []AttackCfg {
+	eq4 := []int64{20, 20, 20, 20}
+	out := []AttackCfg{{eq4, 0}, {eq4, 1}, {eq4, 2}, {eq4, 3}}
+	out = append(out, AttackCfg{[]int64{104, 70, 70, 70}, 0}) // adversary just under 1/3
+	out = append(out, AttackCfg{[]int64{60, 30, 30, 30}, 1})  // total divisible by 3
+	out = append(out, AttackCfg{[]int64{20, 50, 80, 110, 140}, 2})
+	out = append(out, AttackCfg{[]int64{20, 20, 20, 20, 20, 20, 20}, 3})
+	return out
+}
+
+// AttackCase runs attack number c.I (attack x configuration) and reports alarms of property prop.
+func AttackCase(c *core.Case, prop string) {
+	run := c.Run
+	cfgs := AttackCfgs()
+	at := Attacks[c.I%len(Attacks)]
+	cfg := cfgs[(c.I/len(Attacks))%len(cfgs)]
+	net, err := NewNet(NetOpts{N: len(cfg.Powers), Powers: cfg.Powers, Byz: []int{cfg.B}})
+	if err != nil {
+		run.Inconclusive("network build failed: " + err.Error())
+		return
+	}
+	defer net.Close()
+	al := NewAlarms()
+	hist := NewSetHistory(RefSetFrom(net.Correct()[0].CS.VerifState().Validators))
+	net.Mons = []Monitor{NewAgreementMonitor(al, hist), NewRulesMonitor(al, hist)}
+	if err := net.StartAll(); err != nil {
+		run.Inconclusive("network start failed: " + err.Error())
+		return
+	}
+	ctx := &AttackCtx{Net: net, Adv: NewAdversary(net), B: cfg.B}
+	reached := at.Run(ctx)
+	run.Eval(1)
+	base := net.MaxHeight()
+	res := net.RunSync(base+2, uint32(20*len(cfg.Powers)), nil)
+	for k, v := range al.Counts {
+		run.Count(k, v)
+	}
+	if reached {
+		run.Count("attacks_performed", 1)
+		run.Distinct("attack", at.Name)
+		run.Nontrivial(fmt.Sprintf("%s/%v/b%d", at.Name, cfg.Powers, cfg.B))
+	} else {
+		run.Count("attack_precondition_not_reached:"+at.Name, 1)
+	}
+	if c.I < 2 {
+		run.Sample(map[string]interface{}{"attack": at.Name, "cfg": cfg, "log": ctx.Log, "final": net.Heights()})
+	}
+	w := map[string]interface{}{"attack": at.Name, "cfg": cfg, "log": ctx.Log, "heights": net.Heights(), "schedule_tail": net.TailSched(150)}
+	for _, a := range al.List {
+		if a.Prop == prop {
+			c.Violation(a.Key+"@"+at.Name, a.What, w)
+		} else {
+			run.Count("alarm_of_other_property:"+a.Prop+":"+a.Key, 1)
+		}
+	}
+	if prop == "C04" {
+		for _, n := range net.Correct() {
+			if n.Dead {
+				c.Violation("consensus-loop-terminated@"+at.Name, fmt.Sprintf("node %d: %s", n.Idx, n.DeadWhy), w)
+				return
+			}
+		}
+		switch {
+		case res.Deadlock != "":
+			c.Violation("deadlock@"+at.Name, res.Deadlock, w)
+		case res.Stuck != "":
+			c.Violation("no-commit-within-bound@"+at.Name, res.Stuck, w)
+		case !res.Reached:
+			c.Violation("suffix-did-not-reach-target@"+at.Name, net.Heights(), w)
+		}
+	}
+}
